@@ -281,6 +281,8 @@ def body(led):
     axial_load(led)
     load_asymmetry(led)
     static_wrapper(led)
+    from . import py_static
+    py_static.check_conecyl_static(led)
     force_registration(led)
     from . import c18_fext, c18_partition
     c18_fext.check(led)
